@@ -497,6 +497,29 @@ fn inherit_family(props: &str, out: &mut Vec<Fail>) -> usize {
             }
         }
     }
+    // two bases: the FIRST #[base] field decides which vftable is extended and shared
+    for ptr in [4usize, 8] {
+        for (own, accept) in [(None, true), (Some("        pub fn a1(&self);\n"), true), (Some("        pub fn b1(&self);\n"), false)] {
+            let mut src = String::from("pub type A { vftable { pub fn a1(&self); }, pub ax: *const u8 }\npub type B { vftable { pub fn b1(&self); }, pub bx: *const u8 }\npub type D {\n");
+            if let Some(o) = own { src.push_str(&format!("    vftable {{\n{o}    }},\n")); }
+            src.push_str("    #[base]\n    pub a: A,\n    #[base]\n    pub b: B,\n}\n");
+            let o = build_one(&src, ptr);
+            n += 1;
+            let mut fail = |e: String, a: String| out.push(Fail { family: "inheritance", input: src.clone(), ptr, expected: e, actual: a });
+            match &o {
+                Outcome::Panic(m) => fail("no panic".into(), format!("PANIC({m})")),
+                Outcome::Err(m) => { if accept && props.contains("C06") { fail("accepted".into(), format!("ERR({m})")) } }
+                Outcome::Ok(st) => {
+                    if !props.contains("C06") { continue; }
+                    if !accept { fail("rejected (own block repeats the second base's slot, not the first's)".into(), "accepted".into()); continue; }
+                    let Some((_, td)) = get_type(st, "m::D") else { fail("m::D".into(), "missing".into()); continue };
+                    let bf = td.vftable.as_ref().and_then(|v| v.base_field.clone());
+                    let names: Vec<String> = td.vftable.as_ref().map(|v| v.functions.iter().map(|f| f.name.clone()).collect()).unwrap_or_default();
+                    if bf.as_deref() != Some("a") || names != vec!["a1".to_string()] { fail("vftable shared with the first base `a`, slots [a1]".into(), format!("base_field {bf:?}, slots {names:?}")); }
+                }
+            }
+        }
+    }
     n
 }
 
